@@ -258,6 +258,8 @@ func cmdC02Diff(seed uint64, n int, dir string) {
 		st.add("test-table string", s)
 		cmpObs(st, "test-table", s, a, b)
 	}
+	// (1b) every fused arithmetic instruction at the boundaries of every sized integer type
+	c02Boundary(st)
 	// (2) generated programs of every profile
 	kinds := map[string]int{}
 	for c := 0; c < n; c++ {
@@ -293,4 +295,96 @@ func canonMaps(s string) string {
 		sort.Strings(parts)
 		return "map[" + strings.Join(parts, " ") + "]"
 	})
+}
+
+// c02BoundaryPrograms: every fused arithmetic instruction at the boundaries of every sized integer type.  One program
+// per type; each line of output is one function applied to one operand tuple, so that the first differing line
+// names the function.  (The generated programs compute on int32 mid-range values; the fused instructions must also
+// wrap exactly like the instruction sequences they replace.)
+func c02BoundaryPrograms() (srcs []string, names []string) {
+	type ty struct {
+		name   string
+		bounds []int64
+	}
+	tys := []ty{
+		{"int8", []int64{-128, -127, -2, -1, 0, 1, 2, 126, 127}},
+		{"uint8", []int64{0, 1, 2, 127, 128, 254, 255}},
+		{"int", []int64{-2147483648, -2147483647, -1, 0, 1, 2147483646, 2147483647}},
+		{"uint32", []int64{0, 1, 2, 2147483647, 2147483648, 4294967294, 4294967295}},
+	}
+	for _, t := range tys {
+		var sb, mainb strings.Builder
+		sb.WriteString("package main\n\nimport \"fmt\"\n\n")
+		nf := 0
+		unary := func(body string) {
+			fmt.Fprintf(&sb, "func u%d(a %s) %s {\n\tx := a\n%s\treturn x\n}\n", nf, t.name, t.name, body)
+			for _, v := range t.bounds {
+				fmt.Fprintf(&mainb, "\tfmt.Println(\"u%d\", %d, u%d(%s(%d)))\n", nf, v, nf, t.name, v)
+			}
+			nf++
+		}
+		for _, k := range []int{1, 2, 3, 100, 127} {
+			unary(fmt.Sprintf("\tx += %d\n", k))
+			unary(fmt.Sprintf("\tx -= %d\n", k))
+			unary(fmt.Sprintf("\tx = x + %d\n", k))
+			unary(fmt.Sprintf("\tx = x - %d\n", k))
+			unary(fmt.Sprintf("\tx = x + %d - %d\n", k, k+1))
+		}
+		unary("\tx++\n")
+		unary("\tx--\n")
+		unary("\tx++\n\tx++\n")
+		unary("\tfor i := 0; i < 3; i++ {\n\t\tx++\n\t}\n")
+		unary("\tfor i := 0; i < 3; i++ {\n\t\tx--\n\t}\n")
+		unary("\ts := []" + t.name + "{a, a, a}\n\ts[1] = s[2] + 1\n\tx = s[1]\n")
+		unary("\ts := []" + t.name + "{a, a, a}\n\ts[2]++\n\tx = s[2] - s[0]\n")
+		for _, op := range []string{"+", "-", "*", "/"} {
+			fmt.Fprintf(&sb, "func b%d(a %s, b %s) %s {\n\tx := a\n\ty := b\n\treturn x %s y\n}\n", nf, t.name, t.name, t.name, op)
+			for _, v := range t.bounds {
+				for _, w := range t.bounds {
+					if op == "/" && w == 0 {
+						continue
+					}
+					fmt.Fprintf(&mainb, "\tfmt.Println(\"b%d\", %d, %d, b%d(%s(%d), %s(%d)))\n", nf, v, w, nf, t.name, v, t.name, w)
+				}
+			}
+			nf++
+		}
+		sb.WriteString("func main() {\n" + mainb.String() + "}\n")
+		srcs = append(srcs, sb.String())
+		names = append(names, t.name)
+	}
+	return
+}
+
+func c02Boundary(st *stats) {
+	srcs, names := c02BoundaryPrograms()
+	for k, src := range srcs {
+		a, b := loadBoth(src, false), loadBoth(src, true)
+		st.add("boundary sweep "+names[k], fmt.Sprintf("fused arithmetic at the bounds of %s: %d result lines", names[k], strings.Count(a.out, "\n")))
+		if a.err || b.err || a.panic != "" || b.panic != "" {
+			cmpObs(st, "boundary-"+names[k], src, a, b)
+			continue
+		}
+		la, lb := strings.Split(a.out, "\n"), strings.Split(b.out, "\n")
+		for i := range la {
+			if i >= len(lb) || la[i] != lb[i] {
+				got := ""
+				if i < len(lb) {
+					got = lb[i]
+				}
+				// cut the program down to the function named on the line
+				fn := strings.Fields(la[i])[0]
+				body := ""
+				if j := strings.Index(src, "func "+fn+"("); j >= 0 {
+					body = src[j:]
+					if e := strings.Index(body, "\n}\n"); e >= 0 {
+						body = body[:e+3]
+					}
+				}
+				st.mismatchG("boundary|"+names[k], optMismatch{Kind: "boundary-" + names[k], Src: body,
+					What: fmt.Sprintf("operands and result (function, operands..., result): optimizer off %q, optimizer on %q", la[i], got)})
+				break
+			}
+		}
+	}
 }
